@@ -570,3 +570,86 @@ package keeper
 //@   loop 0: invariant forall d string :: {bank_supply[d]} d != dn ==> bank_supply[d] == old(bank_supply)[d]
 //@   loop 0: invariant bank_supply[dn] >= old(bank_supply)[dn] && (rangeindex < 0 ==> ent_store == s0 && bank_supply == old(bank_supply) && bank_bal == old(bank_bal))
 //@   loop 0: invariant len(acceptedPurchaseOrderIds) > 0 ==> acceptedHas(s0, acceptedPurchaseOrderIds[0])
+
+// ================================================================ reported supply (C17)
+//
+// Circulating supply of the module denomination = the bank's recorded supply minus the total locked eFUND; every other
+// denomination is reported unchanged.  Precondition from the ledger invariant and the bank's own supply invariant:
+// total locked (== the escrow balance) does not exceed the recorded supply.
+
+//@ func Keeper.GetTotalUnLockedUnd(ctx) (c)
+//@   props C17
+//@   requires ENT_BOOKS_WF(ent_store) && 0 <= totalLockedAmt(ent_store) && totalLockedAmt(ent_store) <= bank_supply[entDenom(ent_store)] && bank_supply[entDenom(ent_store)] < P255
+//@   pure
+//@   nopanic
+//@   ensures !isnil(c.Amount) && Amt(c) == bank_supply[entDenom(ent_store)] - totalLockedAmt(ent_store) && c.Denom == entDenom(ent_store) && Amt(c) >= 0
+
+//@ func Keeper.GetTotalUndSupply(ctx) (c)
+//@   props C17
+//@   requires entParamsSet(ent_store)
+//@   pure
+//@   nopanic
+//@   ensures !isnil(c.Amount) && Amt(c) == bank_supply[entDenom(ent_store)] && c.Denom == entDenom(ent_store)
+
+// The response type is uint64: the figures are exact as long as the supply is below 2^64 base units.
+//@ func Keeper.GetEnterpriseSupplyIncludingLockedUnd(ctx) (r)
+//@   props C17
+//@   requires ENT_BOOKS_WF(ent_store) && 0 <= totalLockedAmt(ent_store) && totalLockedAmt(ent_store) <= bank_supply[entDenom(ent_store)] && bank_supply[entDenom(ent_store)] < 2^64
+//@   pure
+//@   nopanic
+//@   ensures @locked_plus_unlocked_is_total r.Locked + r.Amount == r.Total
+//@   ensures @figures r.Total == bank_supply[entDenom(ent_store)] && r.Locked == totalLockedAmt(ent_store) && r.Denom == entDenom(ent_store)
+
+//@ func Keeper.GetSupplyOfWithLockedNundRemoved(ctx, denom) (c)
+//@   props C17
+//@   requires ENT_BOOKS_WF(ent_store) && 0 <= totalLockedAmt(ent_store) && totalLockedAmt(ent_store) <= bank_supply[entDenom(ent_store)] && bank_supply[entDenom(ent_store)] < P255
+//@   pure
+//@   nopanic
+//@   ensures @native_minus_locked denom == entDenom(ent_store) ==> !isnil(c.Amount) && Amt(c) == bank_supply[denom] - totalLockedAmt(ent_store) && Amt(c) >= 0
+//@   ensures @others_unchanged denom != entDenom(ent_store) ==> !isnil(c.Amount) && Amt(c) == bank_supply[denom]
+//@   ensures @denom c.Denom == denom
+
+// The listing: the bank's page with exactly the entry of the module denomination rewritten; same length, same
+// denominations in the same order (so each denomination still appears once).
+//@ func Keeper.GetTotalSupplyWithLockedNundRemoved(ctx, pagination) (coins, pageResp, err)
+//@   props C17
+//@   requires ENT_BOOKS_WF(ent_store) && 0 <= totalLockedAmt(ent_store) && totalLockedAmt(ent_store) <= bank_supply[entDenom(ent_store)] && bank_supply[entDenom(ent_store)] < P255
+//@   pure
+//@   nopanic
+//@   ensures @native_minus_locked forall i int :: {coins[i]} 0 <= i && i < len(coins) && coins[i].Denom == entDenom(ent_store) ==> !isnil(coins[i].Amount) && Amt(coins[i]) == bank_supply[coins[i].Denom] - totalLockedAmt(ent_store)
+//@   ensures @others_unchanged forall i int :: {coins[i]} 0 <= i && i < len(coins) && coins[i].Denom != entDenom(ent_store) ==> !isnil(coins[i].Amount) && Amt(coins[i]) == bank_supply[coins[i].Denom]
+//@   ensures @each_denomination_once forall i int, j int :: {coins[i], coins[j]} 0 <= i && i < j && j < len(coins) ==> coins[i].Denom != coins[j].Denom
+//@   loop 0: invariant 0 - 1 <= rangeindex && rangeindex < len(supplyCoins)
+//@   loop 0: invariant forall i int, j int :: {supplyCoins[i], supplyCoins[j]} 0 <= i && i < j && j < len(supplyCoins) ==> supplyCoins[i].Denom != supplyCoins[j].Denom
+//@   loop 0: invariant forall i int :: {supplyCoins[i]} 0 <= i && i <= rangeindex && supplyCoins[i].Denom == entDenom(ent_store) ==> !isnil(supplyCoins[i].Amount) && Amt(supplyCoins[i]) == bank_supply[supplyCoins[i].Denom] - totalLockedAmt(ent_store)
+//@   loop 0: invariant forall i int :: {supplyCoins[i]} 0 <= i && i < len(supplyCoins) && (i > rangeindex || supplyCoins[i].Denom != entDenom(ent_store)) ==> !isnil(supplyCoins[i].Amount) && Amt(supplyCoins[i]) == bank_supply[supplyCoins[i].Denom]
+
+// gRPC wrappers: they return exactly what the keeper functions compute
+//@ func Keeper.SupplyOf(c, req) (resp, err)
+//@   props C17
+//@   requires ENT_BOOKS_WF(ent_store) && 0 <= totalLockedAmt(ent_store) && totalLockedAmt(ent_store) <= bank_supply[entDenom(ent_store)] && bank_supply[entDenom(ent_store)] < P255
+//@   pure
+//@   nopanic
+//@   ensures @native_minus_locked err == nil && req.Denom == entDenom(ent_store) ==> Amt(resp.Amount) == bank_supply[req.Denom] - totalLockedAmt(ent_store)
+//@   ensures @others_unchanged err == nil && req.Denom != entDenom(ent_store) ==> Amt(resp.Amount) == bank_supply[req.Denom]
+//@   ensures @denom err == nil ==> resp.Amount.Denom == req.Denom
+
+//@ func Keeper.EnterpriseSupply(c, req) (resp, err)
+//@   props C17
+//@   requires ENT_BOOKS_WF(ent_store) && 0 <= totalLockedAmt(ent_store) && totalLockedAmt(ent_store) <= bank_supply[entDenom(ent_store)] && bank_supply[entDenom(ent_store)] < 2^64
+//@   pure
+//@   nopanic
+//@   ensures err == nil && resp.Supply.Locked + resp.Supply.Amount == resp.Supply.Total && resp.Supply.Total == bank_supply[entDenom(ent_store)] && resp.Supply.Locked == totalLockedAmt(ent_store)
+
+//@ func Keeper.TotalSupply(c, req) (resp, err)
+//@   props C17
+//@   requires ENT_BOOKS_WF(ent_store) && 0 <= totalLockedAmt(ent_store) && totalLockedAmt(ent_store) <= bank_supply[entDenom(ent_store)] && bank_supply[entDenom(ent_store)] < P255
+//@   pure
+//@   ensures @native_minus_locked err == nil ==> forall i int :: {resp.Supply[i]} 0 <= i && i < len(resp.Supply) && resp.Supply[i].Denom == entDenom(ent_store) ==> Amt(resp.Supply[i]) == bank_supply[resp.Supply[i].Denom] - totalLockedAmt(ent_store)
+//@   ensures @others_unchanged err == nil ==> forall i int :: {resp.Supply[i]} 0 <= i && i < len(resp.Supply) && resp.Supply[i].Denom != entDenom(ent_store) ==> Amt(resp.Supply[i]) == bank_supply[resp.Supply[i].Denom]
+//@   ensures @each_denomination_once err == nil ==> forall i int, j int :: {resp.Supply[i], resp.Supply[j]} 0 <= i && i < j && j < len(resp.Supply) ==> resp.Supply[i].Denom != resp.Supply[j].Denom
+
+//@ func Keeper.SupplyOfOverwrite(c, req)
+//@   inline
+//@ func Keeper.TotalSupplyOverwrite(c, req)
+//@   inline
